@@ -14,11 +14,11 @@ import (
 )
 
 type solverCfg struct {
-	quickMs int // first attempt (z3-new only)
-	fullMs  int // portfolio attempt
-	workers int
-	seed    int
-	keepDir string
+	quickMs  int // first attempt (z3-new only)
+	fullMs   int // portfolio attempt
+	workers  int
+	seed     int
+	keepDir  string
 	allAgree bool
 }
 
